@@ -66,6 +66,8 @@ def rule_generators(ctx, res):
         s.run()
         ok = len(s.complete_paths()) >= 2
         seen_kinds = set()
+        inline = ctx.f.body(gfn) is None      # no separate block function: a shared (generic) helper was inlined into generate
+        miss_paths = []
         for p in s.complete_paths():
             # "is there an id left in the block?": `ids.get(curr_index)` is Some, or `curr_index < ids.len()` / `< LEN`
             got = [option_is_some(literal(c)[2]) for c in p.conds if literal(c)[0] == 'variant' and literal(c)[1][0] == 'call' and literal(c)[1][1].endswith('::get')
@@ -105,37 +107,53 @@ def rule_generators(ctx, res):
                 # block exhausted: new shuffled block from next_alloc, index reset, then retry (by recursion, or by falling
                 # through to the hand-out code: the id handed out is then ids'[0] and the index ends at 1)
                 na, ids, ci0 = first.get('next_alloc'), first.get(arr), first.get('curr_index')
-                fresh = (na is not None and ids is not None and term_int(ci0) == 0 and find_calls(na, gfn.split('::')[-1]) and find_calls(ids, gfn.split('::')[-1])
-                         and is_field_of_param(find_calls(na, gfn.split('::')[-1])[0][2][0], 'self', 'next_alloc')
-                         and any(e[0] == 'call' and e[1].endswith('::shuffle') for e in p.effects))
+                shuffled = [e for e in p.effects if e[0] == 'call' and e[1].endswith('::shuffle')]
+                if inline:
+                    # the block is computed in place (generic helper inlined): judged by the block table below
+                    fresh = na is not None and ids is not None and term_int(ci0) == 0 and bool(shuffled) and strip_transparent(shuffled[0][2][0]) == strip_transparent(ids)
+                    miss_paths.append((p, na))
+                else:
+                    fresh = (na is not None and ids is not None and term_int(ci0) == 0 and find_calls(na, gfn.split('::')[-1]) and find_calls(ids, gfn.split('::')[-1])
+                             and is_field_of_param(find_calls(na, gfn.split('::')[-1])[0][2][0], 'self', 'next_alloc') and bool(shuffled))
                 retry = p.ret[0] == 'call' and p.ret[1] == gen and term_int(ws.get('curr_index')) == 0
-                idx0 = [x for x in lib.term_walk(p.ret) if isinstance(x, tuple) and x and x[0] == 'index' and term_int(x[2]) == 0 and find_calls(x[1], gfn.split('::')[-1])]
+                idx0 = [x for x in lib.term_walk(p.ret) if isinstance(x, tuple) and x and x[0] == 'index' and term_int(x[2]) == 0
+                        and (find_calls(x[1], gfn.split('::')[-1]) or (inline and ids is not None and strip_transparent(x[1]) == strip_transparent(ids)))]
                 direct = bool(idx0) and term_int(ws.get('curr_index')) == 1 and (p.ret[0] == 'call' and p.ret[1] in (T + 'MIDGenerator::new', T + 'TransactionID::new'))
                 if not (fresh and (retry or direct)):
                     ok = False
         ok = ok and seen_kinds == {'hit', 'miss'}
         res.check(ok, 'TABLE', gen, 'hand out ids[curr_index] and advance by one; when the block is exhausted allocate the next block from next_alloc, shuffle it, reset the index and retry', site=b.span)
-        g = ctx.body(gfn)
-        res.touch(g)
-        gs = Sym(g)
-        gs.run()
         maxc = ctx.f.const_value(T + ('MAX_ACTION_ID' if shift else 'MAX_MESSAGE_ID'))
         ln = 2048
-        okg = bool(gs.complete_paths())
-        for p in gs.complete_paths():
-            wrap = [literal(c)[3] for c in p.conds if literal(c)[0] == 'eq' and is_param(literal(c)[1], 'next_alloc') and term_int(literal(c)[2]) == maxc]
-            if not wrap:
+        if inline:
+            g, gs = b, s
+            rows = [(p, (lambda t: is_field_of_param(t, 'self', 'next_alloc')), na) for p, na in miss_paths]
+        else:
+            g = ctx.body(gfn)
+            res.touch(g)
+            gs = Sym(g)
+            gs.run()
+            rows = [(p, (lambda t: is_param(t, 'next_alloc')), p.ret[2].get('0') if p.ret[0] == 'agg' else None) for p in gs.complete_paths()]
+        okg = bool(rows)
+        wraps = set()
+        for p, is_na, end in rows:
+            wrap = []
+            for c in p.conds:
+                l = literal(c)
+                if l[0] == 'eq' and l[3] is not None and ((is_na(strip_transparent(l[1])) and term_int(l[2]) == maxc) or (isinstance(l[2], tuple) and is_na(strip_transparent(l[2])) and term_int(l[1]) == maxc)):
+                    wrap.append(l[3])
+            if not wrap or end is None:
                 okg = False
                 continue
-            r = p.ret
-            end = r[2].get('0')
+            wraps.add(wrap[-1])
             if wrap[-1]:
                 if term_int(end) != ln:
                     okg = False
             else:
                 e2 = strip_transparent(end)
-                if not (e2[0] == 'bin' and e2[1].replace('WithOverflow', '') == 'Add' and is_param(strip_transparent(e2[2]), 'next_alloc') and term_int(strip_transparent(e2[3])) == ln):
+                if not (e2[0] == 'bin' and e2[1].replace('WithOverflow', '') == 'Add' and is_na(strip_transparent(e2[2])) and term_int(strip_transparent(e2[3])) == ln):
                     okg = False
+        okg = okg and wraps == {True, False}
         # fill loop: ids[index] = value over enumerate(start..end)
         okf = False
         for p in gs.paths:
@@ -156,7 +174,7 @@ def rule_generators(ctx, res):
                                       (en_[0] == 'bin' and en_[1].replace('WithOverflow', '') == 'Add' and strip_transparent(en_[2]) == st_ and term_int(strip_transparent(en_[3])) == ln)
                             if span_ok:
                                 okf = True
-        res.check(okg and okf, 'TABLE', gfn, 'block = [start, start + 2048) with start = 0 when next_alloc == MAX (wrap) else next_alloc; every slot of the block array is filled', site=g.span)
+        res.check(okg and okf, 'TABLE', gen + ' (block computed in place)' if inline else gfn, 'block = [start, start + 2048) with start = 0 when next_alloc == MAX (wrap) else next_alloc; every slot of the block array is filled', site=g.span)
     # composition and decomposition
     b = ctx.body(T + 'TransactionID::new')
     s = Sym(b)
